@@ -6,8 +6,8 @@ __init__, cache_info.
 
 State: the per-wrapper OrderedDict D  key -> (value | placeholder, lock | None, expiry | None), counters.  Ghost:
   $ret[k][v]      the wrapped function has returned v for key k (only grows)
-  $evicted[k]     a *placeholder* entry (in-flight computation) of k was removed by the LRU eviction (only set)
-  $completed[k]   a value has been stored for k (only set)
+  $evicted[k]     how many times a *placeholder* entry (in-flight computation) of k was removed by the LRU eviction
+  $completed[k]   how many times a value has been stored for k
   $nvals          number of entries of D that hold a value
 Invariant (assumed at entry and after every suspension, asserted before every suspension and at exit):
   Z2a  an entry without lock holds a value the wrapped function returned for that key
@@ -54,8 +54,8 @@ register_class(
         "_ttl": OPTINT,
         "$entry": OD,
         "$ret": ArrT(OBJ, ArrT(OBJ, BOOL)),
-        "$evicted": ArrT(OBJ, BOOL),
-        "$completed": ArrT(OBJ, BOOL),
+        "$evicted": ArrT(OBJ, INT),
+        "$completed": ArrT(OBJ, INT),
         "$nvals": INT,
     },
     source=(FT, "AsyncLRUCacheWrapper"),
@@ -117,12 +117,19 @@ def _(h, s, cur):
     return z3.Implies(h.f(W, "$entry", s) != 0, forall([k], z3.Implies(z3.And(d.has(k), e_lock(d.val(k)) == 0), z3.And(ret_of(h, s, k, e_val(d.val(k))), e_val(d.val(k)) != MISSING)), patterns=[d.has(k)]))
 
 
-@LRU.invariant("Z2b_an_entry_with_a_lock_is_a_placeholder_and_its_lock_is_a_lock_object")
+@LRU.invariant("Z2b_an_entry_with_a_lock_is_a_placeholder")
+def _(h, s, cur):
+    d = D(h, s)
+    k = z3.Int(h.st.uniq("k"))
+    return z3.Implies(h.f(W, "$entry", s) != 0, forall([k], z3.Implies(z3.And(d.has(k), e_lock(d.val(k)) != 0), e_val(d.val(k)) == MISSING), patterns=[d.has(k)]))
+
+
+@LRU.invariant("Z2c_the_lock_of_a_placeholder_is_a_lock_object")
 def _(h, s, cur):
     d = D(h, s)
     k = z3.Int(h.st.uniq("k"))
     al = h.arr("$", "alloc")
-    return z3.Implies(h.f(W, "$entry", s) != 0, forall([k], z3.Implies(z3.And(d.has(k), e_lock(d.val(k)) != 0), z3.And(e_val(d.val(k)) == MISSING, e_lock(d.val(k)) > 0, z3.Select(al, e_lock(d.val(k))))), patterns=[d.has(k)]))
+    return z3.Implies(h.f(W, "$entry", s) != 0, forall([k], z3.Implies(z3.And(d.has(k), e_lock(d.val(k)) != 0), z3.And(e_lock(d.val(k)) > 0, z3.Select(al, e_lock(d.val(k))))), patterns=[d.has(k)]))
 
 
 def lru_guarantee(a, b, s, cur):
@@ -130,12 +137,12 @@ def lru_guarantee(a, b, s, cur):
     da, db = D(a, s), D(b, s)
     same_dict = a.f(W, "$entry", s) == b.f(W, "$entry", s)
     return [
-        ("G1_ghost_history_only_grows", z3.And(forall([k, v], z3.Implies(ret_of(a, s, k, v), ret_of(b, s, k, v)), patterns=[ret_of(b, s, k, v)]), forall([k], z3.And(z3.Implies(evicted(a, s, k), evicted(b, s, k)), z3.Implies(completed(a, s, k), completed(b, s, k))), patterns=[evicted(b, s, k)]))),
+        ("G1_ghost_history_only_grows", z3.And(forall([k, v], z3.Implies(ret_of(a, s, k, v), ret_of(b, s, k, v)), patterns=[ret_of(b, s, k, v)]), forall([k], z3.And(evicted(a, s, k) <= evicted(b, s, k), completed(a, s, k) <= completed(b, s, k)), patterns=[evicted(b, s, k)]))),
         (
             "G2_a_placeholder_persists_with_its_lock_until_a_value_is_stored_or_it_is_evicted",
             z3.Implies(
                 z3.And(a.f(W, "$entry", s) != 0, same_dict),
-                forall([k], z3.Implies(z3.And(da.has(k), e_lock(da.val(k)) != 0, z3.Not(z3.And(z3.Not(completed(a, s, k)), completed(b, s, k))), z3.Not(z3.And(z3.Not(evicted(a, s, k)), evicted(b, s, k)))), z3.And(db.has(k), e_lock(db.val(k)) == e_lock(da.val(k)))), patterns=[da.has(k)]),
+                forall([k], z3.Implies(z3.And(da.has(k), e_lock(da.val(k)) != 0, completed(b, s, k) == completed(a, s, k), evicted(b, s, k) == evicted(a, s, k)), z3.And(db.has(k), e_lock(db.val(k)) == e_lock(da.val(k)))), patterns=[da.has(k)]),
             ),
         ),
         ("G3_the_cache_dict_of_the_wrapper_is_not_replaced", z3.Implies(a.f(W, "$entry", s) != 0, same_dict)),
@@ -186,7 +193,7 @@ register_class("LockFrontC20", {}, source=("anyio/_core/_synchronization.py", "L
 class LRUUnit(MethodUnit):
     props = ("C20",)
     spec = LRU
-    trusted = ("E1", "E2", "A-dispatch", "A-key", "A-noclear", "A-real")
+    trusted = ("E1", "E2", "A-dispatch", "A-key", "A-noclear", "A-norecursion", "A-real")
     contracts = {"Lock.acquire": E.LOCK_ACQUIRE_S, "Lock.release": L.RELEASE}
 
     def props_of(self, name):
@@ -202,6 +209,7 @@ class LRUUnit(MethodUnit):
             "Lock": Builtin("Lock", _new_lock),
             "current_time": Builtin("current_time", lambda ip: ip.split_real(ip.st.get("Loop", "time", 0))),
             "checkpoint": Builtin("checkpoint", lambda ip: AwaitableVal("checkpoint")),
+            "T": None,
         }
 
     # -- the RunVar / WeakKeyDictionary indirection -------------------------------------------------------------------
@@ -213,6 +221,11 @@ class LRUUnit(MethodUnit):
                 return Builtin("RunVar.set", lambda ip, v: None)
         if isinstance(obj, Sym) and obj.ty.name == f"ref:{W}" and attr == "__wrapped__":
             return Builtin("wrapped", lambda ip, *a, **k: AwaitableVal("contract", lambda: self.call_wrapped(ip)))
+        return NotImplemented
+
+    def override_method(self, ip, obj, attr):
+        if isinstance(obj, Sym) and obj.ty is OD and attr == "popitem":
+            return Builtin("OrderedDict.popitem", lambda ip, last=True: self.ghost_popitem(ip, obj, last))
         return NotImplemented
 
     def runvar_get(self, ip, *default):
@@ -241,16 +254,42 @@ class LRUUnit(MethodUnit):
         if isinstance(obj, CacheMap):
             ip.st.put(W, "$entry", self.self_val.t, ip.term(v, OD))
             return None
-        return self.ghost_set_item(ip, obj, idx, v)
+        return NotImplemented
+
+    def before_container_store(self, ip, obj, idx, v):
+        self.ghost_set_item(ip, obj, idx, v)
+
+    def ghost_popitem(self, ip, d, last):
+        """LRU eviction: ghost bookkeeping of what was evicted (a placeholder = an in-flight computation, or a value)"""
+        st, s = ip.st, self.self_val.t
+        ip.ctx.oblige("AsyncLRUCacheWrapper.__call__@evict/post:eviction_removes_the_least_recently_used_entry", z3.BoolVal(last is False), "post")
+        k, v = lib.od_popitem(ip, d, last)
+        lock_t = ip.term(v[1], LOCK)
+        ev = st.get(W, "$evicted", s)
+        st.put(W, "$evicted", s, z3.Store(ev, k.t, z3.Select(ev, k.t) + z3.If(lock_t != 0, 1, 0)))
+        st.put(W, "$nvals", s, st.get(W, "$nvals", s) - z3.If(lock_t == 0, 1, 0))
+        return (k, v)
 
     def ghost_set_item(self, ip, obj, idx, v):
+        """D[k] = (value, lock, expiry): ghost bookkeeping, then the engine's OrderedDict store"""
+        if isinstance(obj, Sym) and obj.ty is OD and isinstance(v, tuple) and len(v) == 3:
+            st, s = ip.st, self.self_val.t
+            h = H(st)
+            d = h.od(OD.cls, obj.t)
+            k = ip.term(idx, OBJ)
+            new_is_value = ip.term(v[1], LOCK) == 0
+            old_is_value = z3.And(d.has(k), e_lock(d.val(k)) == 0)
+            c = st.get(W, "$completed", s)
+            st.put(W, "$completed", s, z3.Store(c, k, z3.Select(c, k) + z3.If(new_is_value, 1, 0)))
+            st.put(W, "$nvals", s, st.get(W, "$nvals", s) + z3.If(new_is_value, 1, 0) - z3.If(old_is_value, 1, 0))
         return NotImplemented
 
     def abstract_stmt(self, ip, stmt, env, f):
         """`key` construction: stated abstraction (module docstring)"""
         if f.qualname != "AsyncLRUCacheWrapper.__call__":
             return False
-        if _assigned(stmt) == {"key"} and not any(isinstance(n, (ast.Await, ast.Call)) and not _pure_call(n) for n in ast.walk(stmt)):
+        stores = [n for n in ast.walk(stmt) if isinstance(n, (ast.Attribute, ast.Subscript)) and isinstance(n.ctx, (ast.Store, ast.Del))]
+        if _assigned(stmt) == {"key"} and not stores and not any(isinstance(n, (ast.Await, ast.Call)) and not _pure_call(n) for n in ast.walk(stmt)):
             env.vars["key"] = self.key
             return True
         return False
@@ -261,13 +300,50 @@ class LRUUnit(MethodUnit):
             return Sym(a.t + z3.ToReal(b.t), REAL)
         return NotImplemented
 
+    lock_obj = None  # the Lock this call waits for / holds
+    holding = False
+
     def resume_assumptions(self, ip, what, payload):
         h = H(ip.st)
         s, cur = self.self_val.t, ip.ctx.cur.t
-        for n, t in self.spec.assumed_terms(h, s, cur):
-            ip.st.assume(t)
+        self.assume_state(ip)  # representation facts + class invariant
         for n, t in lru_guarantee(self.before, h, s, cur):
             ip.st.assume(t)
+        if what == "call:Lock.acquire":
+            self.lock_obj = payload.self
+        if self.lock_obj is not None:
+            # the Lock's own class invariant (proved by the C09 units) holds at every suspension point, and nobody
+            # takes a lock away from its owner (C09's rely)
+            lk = self.lock_obj
+            for n, t in L.LOCK.assumed_terms(h, lk, cur):
+                ip.st.assume(t)
+            for n, t in L.LOCK.inv_terms(h, lk, cur):
+                ip.st.assume(t)
+            if self.holding:
+                for n, t in L.lock_rely(self.before, h, lk, cur, None):
+                    ip.st.assume(t)
+
+    def after_suspending_call(self, ip, contract, a, case, exc, ret=None):
+        if contract is E.LOCK_ACQUIRE_S:
+            self.holding = case.name == "acquired"
+
+    def contract_for(self, qualname, ctx):
+        c = self.contracts.get(qualname)
+        if qualname == "Lock.release" and c is not None:
+            unit = self
+
+            class Wrap:
+                suspends = False
+
+                def apply(self_, ip, f, args, kwargs):
+                    try:
+                        return c.apply(ip, f, args, kwargs)
+                    finally:
+                        if ip.ctx.last_case.get(c.qualname) == "owner":
+                            unit.holding = False
+
+            return Wrap()
+        return c
 
     def guarantee(self, seg, now, s, cur):
         return lru_guarantee(seg, now, s, cur)
@@ -283,44 +359,147 @@ def _assigned(stmt):
 
 
 def _pure_call(n):
+    """inside a key-building statement: anything but a suspension or a call that reaches the cache / the wrapper"""
     if isinstance(n, ast.Await):
         return False
     txt = ast.unparse(n.func) if isinstance(n, ast.Call) else ""
-    return txt in ("tuple", "type", "sum", "kwargs.items", "kwargs.values")
+    root = txt.split(".")[0].split("(")[0]
+    return root not in ("self", "cache", "cache_entry", "lru_cache_items", "Lock", "current_time", "checkpoint", "lock")
 
 
 class CallUnit(LRUUnit):
     method = "__call__"
     contract = None
+    split = (2, 2, 2, 2)
 
     def make_args(self, ip):
         self.key = Sym(z3.Int("key"), OBJ)
         return [Sym(z3.Int("arg0"), OBJ)], types.SimpleNamespace()
 
     def on_entry(self, ip, pre, a):
-        self.wrapped_calls = []
+        # A-norecursion: the calling task is not itself computing this key (a recursive call of the cached function
+        # with the same arguments from inside its own computation would wait for itself)
+        d = D(pre, a.self)
+        ip.st.assume(z3.Implies(z3.And(pre.f(W, "$entry", a.self) != 0, d.has(self.key.t), e_lock(d.val(self.key.t)) != 0), L.owner(pre, e_lock(d.val(self.key.t))) != a.cur))
+        self.lock_obj, self.holding = None, False
+        self.user_outcome = None  # (case name, exception object or None, result or None) of the wrapped call
+        self.started = 0
+        self.pre = pre
+        self.lock_exc = None
+        self.last_suspend = None
+
+    def segment_deltas(self, seg, now, s, cur):
+        return {n: now.f(W, f"_{n}", s) - seg.f(W, f"_{n}", s) for n in ("hits", "misses")}
+
+    def ghost_suspend(self, ip, what, payload):
+        self.last_suspend = what
 
     def call_wrapped(self, ip):
+        """the point where a computation starts (the wrapped coroutine is awaited)"""
         st, s = ip.st, self.self_val.t
-        k = self.key.t
-        self.wrapped_calls.append("start")
+        h, pre, k = H(st), self.pre, self.key.t
+        self.started += 1
+        nm = "AsyncLRUCacheWrapper.__call__@compute"
+        if ip.truth(ip.getattr(self.self_val, "_maxsize")) is not False and not self.bypass(ip, h, s):
+            d = D(h, s)
+            mine = z3.And(d.has(k), e_lock(d.val(k)) == (self.lock_obj if self.lock_obj is not None else z3.IntVal(-1)), z3.BoolVal(self.holding))
+            ev, co = evicted(h, s, k) - evicted(pre, s, k), completed(h, s, k) - completed(pre, s, k)
+            goal = "single_flight.computes_only_while_holding_the_lock_of_the_keys_current_entry"
+            ip.ctx.oblige(f"{nm}/post:{goal}[no_in_flight_entry_of_the_key_was_evicted_and_no_value_stored_since_the_call_began]", z3.Implies(z3.And(ev == 0, co == 0), mine), "post")
+            ip.ctx.oblige(f"{nm}/post:{goal}[after_an_in_flight_entry_of_the_key_was_evicted]", z3.Implies(ev > 0, mine), "post")
+            ip.ctx.oblige(f"{nm}/post:{goal}[after_a_value_of_the_key_was_stored_and_lost_again]", z3.Implies(z3.And(ev == 0, co > 0), mine), "post")
         r = USER.apply(ip, None, [], {})
         return r
 
+    def bypass(self, ip, h, s):
+        return ip.st.feasible(h.f(W, "_maxsize", s) == 0) and not ip.st.feasible(h.f(W, "_maxsize", s) != 0)
+
     def after_suspending_call(self, ip, contract, a, case, exc, ret=None):
-        if contract is USER and case.name == "returned":
-            st, s = ip.st, self.self_val.t
-            k = self.key.t
-            r = st.get(W, "$ret", s)
-            st.put(W, "$ret", s, z3.Store(r, k, z3.Store(z3.Select(r, k), ret.t, True)))
-            self.wrapped_result = ret
+        super().after_suspending_call(ip, contract, a, case, exc, ret)
+        if contract is E.LOCK_ACQUIRE_S and exc is not None:
+            self.lock_exc = exc
+        if contract is USER:
+            self.user_outcome = (case.name, exc, ret)
+            if case.name == "returned":
+                st, s = ip.st, self.self_val.t
+                k = self.key.t
+                r = st.get(W, "$ret", s)
+                st.put(W, "$ret", s, z3.Store(r, k, z3.Store(z3.Select(r, k), ret.t, True)))
 
     def on_exit(self, ip, pre, a, exc, ret):
         s = a.self
         post = H(ip.st)
         nm = "AsyncLRUCacheWrapper.__call__"
-        if exc is None:
-            ip.ctx.oblige(f"{nm}/post:returns_a_value_the_wrapped_function_returned_for_this_key", ret_of(post, s, self.key.t, ip.term(ret, OBJ)), "post")
+        k = self.key.t
+        uo = self.user_outcome
+        ip.ctx.oblige(f"{nm}/post:the_wrapped_function_is_run_at_most_once_per_call", z3.BoolVal(self.started <= 1), "post")
+        if exc is not None:
+            # "no caller ever observes an internal error": what leaves the call is what the wrapped function raised, or
+            # the cancellation that interrupted this caller while it waited
+            name = exc.pycls.__name__ if exc.pycls is not None else "sym"
+            from_user = uo is not None and uo[1] is exc
+            from_wait = exc is self.lock_exc or (name == "CancelledError" and not from_user)
+            tag = "" if name in ("CancelledError", "Exception") else f"[{name}]"
+            ip.ctx.oblige(f"{nm}/post:raises_only_what_the_wrapped_function_raised_or_the_callers_own_cancellation{tag}", z3.BoolVal(bool(from_user or from_wait)), "post")
+            return
+        ip.ctx.oblige(f"{nm}/post:returns_a_value_the_wrapped_function_returned_for_this_key", ret_of(post, s, k, ip.term(ret, OBJ)), "post")
+        if uo is not None:
+            ip.ctx.oblige(f"{nm}/post:a_computed_result_is_returned_unchanged", z3.BoolVal(uo[0] == "returned" and isinstance(ret, Sym) and uo[2] is not None and ret.t.eq(uo[2].t)), "post")
+        # accounting: exactly one of hits / misses is counted for a call that returns
+        dh, dm = self.acc.get("hits", 0), self.acc.get("misses", 0)
+        ip.ctx.oblige(f"{nm}/post:a_returning_call_counts_exactly_one_hit_or_one_miss", z3.And(dh + dm == 1, dm == (1 if uo is not None else 0)), "post")
+        if ip.st.feasible(pre.f(W, "_maxsize", s) != 0):
+            d = D(post, s)
+            cached = z3.Implies(pre.f(W, "_maxsize", s) != 0, z3.And(post.f(W, "$entry", s) != 0))
+            if uo is None:
+                # a hit: the key has just been used, so it is the most recently used entry
+                # (checked in the segment in which the hit is taken: not after the optional `await checkpoint()` of the
+                # uncontended hit, when other callers have run in between)
+                if getattr(self, "last_suspend", None) != "checkpoint":
+                    ip.ctx.oblige(f"{nm}/post:a_hit_makes_the_key_the_most_recently_used_entry", z3.Implies(pre.f(W, "_maxsize", s) != 0, z3.And(d.has(k), d.lo < d.hi, d.key_at(d.hi - 1) == k)), "post")
+                if not ip.ctx.flags.get("suspended"):
+                    dp = D(pre, s)
+                    ip.ctx.oblige(f"{nm}/post:a_hit_is_served_only_from_an_entry_that_has_not_expired", z3.Implies(pre.f(W, "_maxsize", s) != 0, z3.And(dp.has(k), e_lock(dp.val(k)) == 0, z3.Or(e_exp(dp.val(k)) == INF, pre.f("Loop", "time", 0) < e_exp(dp.val(k))), ip.term(ret, OBJ) == e_val(dp.val(k)))), "post")
+            else:
+                ip.ctx.oblige(f"{nm}/post:a_computed_result_is_stored_for_the_key_with_its_expiry", z3.Implies(pre.f(W, "_maxsize", s) != 0, z3.And(cached, d.has(k), e_lock(d.val(k)) == 0, e_val(d.val(k)) == ip.term(ret, OBJ), e_exp(d.val(k)) == z3.If(post.f(W, "_ttl", s) == -1, INF, post.f("Loop", "time", 0) + z3.ToReal(post.f(W, "_ttl", s))))), "post")
+        if self.holding:
+            ip.ctx.oblige(f"{nm}/post:the_entry_lock_is_released_on_every_path", z3.BoolVal(False), "post")
 
 
-UNITS = [CallUnit]
+class InitUnit(LRUUnit):
+    method = "__init__"
+    is_init = True
+    contract = None
+    trusted = ("A-real",)
+
+    def __init__(self):
+        super().__init__()
+        self.globals = dict(self.globals, update_wrapper=Builtin("update_wrapper", lambda ip, *a, **k: None))
+
+    def make_args(self, ip):
+        self.maxsize = Sym(z3.Int("maxsize_arg"), INT)
+        self.maxsize_none = ip.ctx.decide(2, "maxsize-is-None") == 1
+        self.typed = Sym(z3.Bool("typed_arg"), BOOL)
+        self.ac = Sym(z3.Bool("always_checkpoint_arg"), BOOL)
+        self.ttl = Sym(z3.Int("ttl_arg"), OPTINT)
+        ip.st.assume(self.ttl.t >= -1)
+        return [Sym(z3.Int("func"), OBJ), None if self.maxsize_none else self.maxsize, self.typed, self.ac, self.ttl], types.SimpleNamespace()
+
+    def model_setattr(self, ip, obj, attr, val):
+        if attr == "__wrapped__":
+            return None
+        return NotImplemented
+
+    def ghost_init(self, ip):
+        st, s = ip.st, self.self_val.t
+        st.put(W, "$entry", s, z3.IntVal(0))
+        st.put(W, "$nvals", s, z3.IntVal(0))
+
+    def on_exit(self, ip, pre, a, exc, ret):
+        s = a.self
+        post = H(ip.st)
+        want_max = z3.IntVal(-1) if self.maxsize_none else z3.If(self.maxsize.t > 0, self.maxsize.t, 0)
+        ip.ctx.oblige("AsyncLRUCacheWrapper.__init__/post:parameters_stored_negative_maxsize_clamped_to_zero_counters_zero", z3.And(z3.BoolVal(exc is None), post.f(W, "_maxsize", s) == want_max, post.f(W, "_typed", s) == self.typed.t, post.f(W, "_always_checkpoint", s) == self.ac.t, post.f(W, "_ttl", s) == self.ttl.t, post.f(W, "_hits", s) == 0, post.f(W, "_misses", s) == 0, post.f(W, "_currsize", s) == 0), "post")
+
+
+UNITS = [CallUnit, InitUnit]
